@@ -37,6 +37,11 @@ def run(ctx):
     keycmp = [a for a in atoms + conds if a.kind == "cmp" and a.rel in ("ne", "eq")]
     has_risk = any((a.lhs.has_field(GROUP, "risk_admin") or a.rhs.has_field(GROUP, "risk_admin")) and (a.lhs.has_field(skey, "signer") or a.rhs.has_field(skey, "signer")) for a in keycmp)
     has_admin = any((a.lhs.has_field(GROUP, "admin") or a.rhs.has_field(GROUP, "admin")) and (a.lhs.has_field(skey, "signer") or a.rhs.has_field(skey, "signer")) for a in keycmp)
+    roles = set()
+    for a in keycmp:
+        for p in (a.lhs, a.rhs):
+            roles |= {n for (o, n) in p.fields if o == GROUP}
+    ctx.inst("C07.R1", "role-set", roles == {"risk_admin", "admin"}, "exactly the group's risk_admin and admin are accepted", sorted(roles), h.bloc(ev[0]) if ev else None)
     ctx.inst("C07.R1", "role-comparison", has_risk and has_admin, "Unauthorized is raised unless signer == group.risk_admin or signer == group.admin",
              [a.describe() for a in atoms + conds][:6], h.bloc(ev[0]) if ev else h.loc(h.raw["span"]))
     pedges = flag_edges(ctx, h, "PERMISSIONLESS_BAD_DEBT_SETTLEMENT_FLAG")
